@@ -72,16 +72,17 @@ type call struct {
 }
 
 type recorder struct {
-	relevant uint32
-	calls    []call
-	nProcess int
-	nConfirm int
-	failKind string
-	failAt   int
-	cancelAt int
-	bd       *bitcoin_reader.BlockDownloader
-	ctx      context.Context
-	keep     *[]kept // sequence part: the store retains the list it is given, as the project's own mock store does
+	relevant  uint32
+	calls     []call
+	nProcess  int
+	nConfirm  int
+	failKind  string
+	failAt    int
+	cancelAt  int
+	cancelHow string // cancel | cancel-twice | stop+cancel (the manager cancels and then interrupts Run, which cancels again; a dropped peer followed by the manager's cancel)
+	bd        *bitcoin_reader.BlockDownloader
+	ctx       context.Context
+	keep      *[]kept // sequence part: the store retains the list it is given, as the project's own mock store does
 }
 
 // kept is a block record held by a store that retains the slice it was handed.
@@ -110,7 +111,16 @@ func (r *recorder) ProcessTx(ctx context.Context, tx *wire.MsgTx) (bool, error) 
 		return false, errInjected
 	}
 	if r.cancelAt > 0 && r.nProcess == r.cancelAt {
-		r.bd.Cancel(r.ctx)
+		switch r.cancelHow {
+		case "cancel-twice":
+			r.bd.Cancel(r.ctx)
+			r.bd.Cancel(r.ctx)
+		case "stop+cancel":
+			r.bd.Stop(r.ctx)
+			r.bd.Cancel(r.ctx)
+		default:
+			r.bd.Cancel(r.ctx)
+		}
 	}
 	i := txIndex(id)
 	return i >= 0 && r.relevant&(1<<uint(i)) != 0, nil
@@ -211,8 +221,8 @@ func runCaseKeeping(c Case, keep *[]kept) verdict {
 		rec.failKind, rec.failAt = c.Kind, c.K
 	case "err-coinbase", "err-append":
 		rec.failKind = c.Kind
-	case "cancel":
-		rec.cancelAt = c.K
+	case "cancel", "cancel-twice", "stop+cancel":
+		rec.cancelAt, rec.cancelHow = c.K, c.Kind
 	default:
 		panic(c.Kind)
 	}
@@ -261,10 +271,15 @@ func runCaseKeeping(c Case, keep *[]kept) verdict {
 	if !gotComplete {
 		return fail("no-complete-signal", "", "HandleBlock returned without a value on Complete")
 	}
-	select {
-	case <-bd.Complete:
-		return fail("double-complete-signal", "", "two values on Complete")
-	default:
+	if rec.cancelHow != "stop+cancel" {
+		// (after Stop - the peer dropped while the handler was busy - both Stop and the handler's end
+		// put a value on Complete, which is what its capacity of 2 is for; who signals what when is
+		// C16's subject)
+		select {
+		case <-bd.Complete:
+			return fail("double-complete-signal", "", "two values on Complete")
+		default:
+		}
 	}
 	_ = ret
 
@@ -500,6 +515,8 @@ func enumerate(thorough bool) []Case {
 				}
 				add("err-process", k+1, 0)
 				add("cancel", k+1, 0)
+				add("cancel-twice", k+1, 0)
+				add("stop+cancel", k+1, 0)
 			}
 			add("add-foreign", n, 0)
 			for _, g := range []int{2, 4} {
@@ -616,7 +633,7 @@ seq:
 		Coverage: map[string]any{
 			"evaluations":         len(cases),
 			"distinct_nontrivial": nontrivial,
-			"rule":                "complete Cartesian enumeration: block size n x relevant subset x {no corruption; drop/duplicate/alter/insert-foreign tx at every position; copy of the last 2 or 4 transactions appended (announcing the streamed and the original count); swap of every adjacent pair; stream cut after every k; announced count +-1; header not the requested one; header with wrong merkle root; error returned by ProcessTx at every call, by ProcessCoinbaseTx, by ConfirmTx at every relevant position, by AppendBlockTxIDs; Cancel issued from inside every ProcessTx call}. Each case is one execution of the real HandleBlock on a fresh BlockDownloader; plus the sequence part: every verified block with relevant transactions followed, in one process, by every case of up to 3 transactions with relevant ones, with a store that retains the list it is handed - after every download every record made so far must be unchanged. All cases are distinct by construction; non-trivial = has a corruption or fault (kind != none)",
+			"rule":                "complete Cartesian enumeration: block size n x relevant subset x {no corruption; drop/duplicate/alter/insert-foreign tx at every position; copy of the last 2 or 4 transactions appended (announcing the streamed and the original count); swap of every adjacent pair; stream cut after every k; announced count +-1; header not the requested one; header with wrong merkle root; error returned by ProcessTx at every call, by ProcessCoinbaseTx, by ConfirmTx at every relevant position, by AppendBlockTxIDs; Cancel, Cancel twice, and Stop followed by Cancel, issued from inside every ProcessTx call}. Each case is one execution of the real HandleBlock on a fresh BlockDownloader; plus the sequence part: every verified block with relevant transactions followed, in one process, by every case of up to 3 transactions with relevant ones, with a store that retains the list it is handed - after every download every record made so far must be unchanged. All cases are distinct by construction; non-trivial = has a corruption or fault (kind != none)",
 			"exhaustive":          true,
 			"outcomes":            outcomes,
 			"samples":             samples,
